@@ -176,6 +176,20 @@ def build_view(rng, cls, content_len):
         r = ExeFSReader(bio, _load_icon=False)
         o = len(lead) + 0x200 + xinfo['view']['offset']
         return r.open('view'), content, True, (lambda: bio.getvalue()[:o] + b'|' + bio.getvalue()[o + len(content):]), [bio, r]
+    if cls == 'ncch-fulldec':
+        # the fully-decrypted view of an encrypted NCCH whose sections are separated by unclaimed space: a handle with a position
+        # of its own, assembled from per-section pieces and raw gaps
+        from .. import ncchcommon as nc
+        from . import c04
+        from pyctr.type.ncch import NCCHSection
+        spec = nc.gen_spec(rng, small=True)
+        spec.update(mode='normal', extheader=True, logo=0x200, plain=0x200, romfs=True,
+                    gaps={k: rng.choice([1, 1, 2]) for k in ('logo', 'plain', 'exefs', 'romfs', 'end')})
+        if not spec['exefs']:
+            spec['exefs'], spec['slots'] = [['.code', 0x210]], [0]
+        image, info, kwargs = nc.build(spec)
+        r, bio = nc.open_reader(image, kwargs, start=rng.choice([0, 0x200, 0x33]))
+        return r.open_raw_section(NCCHSection.FullDecrypted), c04.expected_image(image, info, False), False, None, [bio, r]
     raise ValueError(cls)
 
 
@@ -183,7 +197,7 @@ def case_oracle(ctx, case, mr=None):
     rng = __import__('random').Random(case['vseed'])
     v, content, writable, probe, keep = build_view(rng, case['cls'], case['sz'])
     ops = case['ops']
-    if case['cls'] in ('reader-file', 'dpfs-file', 'ivfc-file'):
+    if case['cls'] in ('reader-file', 'dpfs-file', 'ivfc-file', 'ncch-fulldec'):
         # the size of these views is known only once they are built: the history is drawn for the real size (same seed, so it replays)
         ops = fc.gen_ops(rng, len(content), len(case['ops']) + 2, writable=writable, whences=(0, 0, 1, 2, 2))
         case = dict(case, ops=ops)
@@ -224,8 +238,8 @@ def gen_cases(ctx, rng):
         blen = off + sz + extra if not short else rng.randrange(off, off + sz + 1)
         yield dict(cls='window', base=pyenv.rbytes(rng, blen).hex(), off=off, sz=sz,
                    ops=fc.gen_ops(rng, sz, rng.randrange(1, 16)))
-    for cls in ('nested-window', 'closewrapper', 'merger', 'ctr-on-window', 'twl-on-window', 'cbc-on-window', 'reader-file', 'dpfs-file', 'ivfc-file', 'exefs-entry'):
-        for i in range(ctx.n(300, 10000) if cls not in ('reader-file', 'dpfs-file', 'ivfc-file') else ctx.n(60, 1500)):
+    for cls in ('nested-window', 'closewrapper', 'merger', 'ctr-on-window', 'twl-on-window', 'cbc-on-window', 'reader-file', 'dpfs-file', 'ivfc-file', 'exefs-entry', 'ncch-fulldec'):
+        for i in range(ctx.n(300, 10000) if cls not in ('reader-file', 'dpfs-file', 'ivfc-file', 'ncch-fulldec') else ctx.n(60, 1500)):
             sz = rng.choice([0, 1, 2, 3, 5, 16, 17, 40])
             if cls == 'cbc-on-window':
                 sz = rng.choice([0, 16, 32, 48, 80])
